@@ -108,6 +108,10 @@ inductive Op
   | cfgAuto (b : Bool)
   | cfgBuf (b : Option Nat)
   | cfgPct (bits : Nat)
+  | cloneN (r : CRef) (n : Nat)      -- clone `n` times, keeping the clones in a per-object stash
+  | dropN (r : CRef) (n : Nat)       -- drop `n` stashed clones
+  | downN (r : CRef) (n : Nat)       -- downgrade `n` times, keeping the weak pointers in a stash
+  | wdropN (r : CRef) (n : Nat)      -- drop `n` stashed weak pointers
   | panic
   | fault (kind : FaultKind) (n : Nat) (j : Nat)
   | nop
@@ -196,6 +200,8 @@ inductive Frame
   | cleanEnd (m : Id) (borrowedByUs : Bool) (unw : Bool)
   /-- the harness drops the value returned by `try_unwrap` -/
   | dropMoved (x : Id)
+  /-- drop `n` more stashed clones of `x` -/
+  | dropMany (x : Id) (n : Nat)
   /-- store the result of an operation in `H[k]` -/
   | setRet (r : Ret)
   deriving Repr, Inhabited
@@ -239,6 +245,8 @@ structure World where
   fDrop : Option Nat := none
   fAct : Option Nat := none
   fBody : Option Nat := none
+  stash : Id → Nat := fun _ => 0       -- clones kept by `cloneN`
+  wstash : Id → Nat := fun _ => 0      -- weak pointers kept by `downN`
 
 namespace World
 
@@ -655,6 +663,51 @@ def execOp (c : Cfg) (w : World) (self wc : Option Id) (op : Op) : World :=
     else
       let w := if c.auto then w.push .adjustAfter else w
       w.startCollect
+  | .cloneN r n =>
+    match w.resolveC self r with
+    | some x =>
+      let room := c.rcMax - (w.heap x).rc
+      if n = 0 then { w with ret := .ok }
+      else if n ≤ room then
+        let w := (w.upd x fun o => { o with rc := o.rc + n }).removeFromList x
+        { w with ret := .ok, stash := fun y => if y = x then w.stash x + n else w.stash y }
+      else
+        -- `room` clones succeed, the next one panics
+        let w := if room = 0 then w else (w.upd x fun o => { o with rc := o.rc + room }).removeFromList x
+        ({ w with stash := fun y => if y = x then w.stash x + room else w.stash y }).raise
+    | none => skip
+  | .dropN r n =>
+    match w.resolveC self r with
+    | some x =>
+      let k := min n (w.stash x)
+      ({ w with ret := .ok, stash := fun y => if y = x then w.stash x - k else w.stash y }).push (.dropMany x k)
+    | none => skip
+  | .downN r n =>
+    if !c.weak then skip else
+    match w.resolveC self r with
+    | some x =>
+      if n = 0 then { w with ret := .ok }
+      else
+        let w := w.initMeta x
+        let room := c.weakMax - (w.metas x).weak
+        if n ≤ room then
+          let w := (w.updMeta x fun m => { m with weak := m.weak + n }).removeFromList x
+          { w with ret := .ok, wstash := fun y => if y = x then w.wstash x + n else w.wstash y }
+        else
+          let w := if room = 0 then w else (w.updMeta x fun m => { m with weak := m.weak + room }).removeFromList x
+          ({ w with wstash := fun y => if y = x then w.wstash x + room else w.wstash y }).raise
+    | none => skip
+  | .wdropN r n =>
+    if !c.weak then skip else
+    match w.resolveC self r with
+    | some x =>
+      let k := min n (w.wstash x)
+      if k = 0 then { w with ret := .ok }
+      else
+        -- `k` times `Weak::drop`: only the last one can release the record (and only if the box is gone: not here, a `Cc` exists)
+        let w := w.updMeta x fun m => { m with weak := m.weak - (k - 1) }
+        { (w.weakDrop (.to x)) with ret := .ok, wstash := fun y => if y = x then w.wstash x - k else w.wstash y }
+    | none => skip
   | .cfgAuto b => if c.auto then { w with cfgAuto := b, ret := .ok } else skip
   | .cfgBuf b => if c.auto then { w with bufThr := b, ret := .ok } else skip
   | .cfgPct bits => if c.auto then { w with pctBits := bits, ret := .ok } else skip
@@ -886,6 +939,10 @@ def stepFrame (c : Cfg) (w : World) (f : Frame) : World :=
         else
           let w := (w.updMeta m fun mm => { mm with weak := mm.weak + 1 }).removeFromList m
           w.setK k (some (m, idx, aid))
+  | .dropMany x n =>
+    match n with
+    | 0 => w
+    | n + 1 => (w.push (.dropMany x n)).push (.dropCc x)
   | .cleanEnd m byUs unw =>
     let w := if byUs then w.upd m fun o => { o with borrowed := false } else w
     (w.push (.actionEnd none unw)).push (.dropCc m)
